@@ -55,8 +55,16 @@ def decls(name, kind, v):
     if kind == "int":
         if v == M.I32_MIN:
             return ["%s_h = -2147483647" % name, "%s = %s_h - 1" % (name, name)]
+        if v >= 0 and v % 5 == 2:                    # every spelling of a literal denotes the same value and kind
+            return ["%s = 0x%x" % (name, v)]
         return ["%s = %d" % (name, v)]
     if kind == "bigint":
+        if v >= 2 ** 31 and v % 4 == 1:              # an int literal too large for int is a bigint (decimal ...
+            return ["%s = %d" % (name, v)]
+        if v >= 2 ** 31 and v % 4 == 3:              # ... and hex spelling)
+            return ["%s = 0x%x" % (name, v)]
+        if v >= 0 and v % 4 == 2:
+            return ["%s = B0x%x" % (name, v)]
         if v >= 0:
             return ["%s = B%d" % (name, v)]
         if v == M.I128_MIN:
@@ -467,6 +475,7 @@ RADICES = [0, 1, 2, 8, 10, 16, 36, 37, -1, 2147483647]
 INTS = [0, 1, -1, 2, -2, 3, -3, 5, -5, 7, 10, -10, 16, 25, 49, 81, 90, 97, 127, 128, 255, 256, -256, 1000, 46340, 46341,
         -46341, 65535, 65536, 2 ** 30, 2 ** 31 - 1, -(2 ** 31) + 1, -(2 ** 31)]
 BIGINTS = [0, 1, -1, 2, -2, 3, 10, -10, 25, 255, 256, 65535, 2 ** 31 - 1, 2 ** 31, -(2 ** 31), -(2 ** 31) - 1, 2 ** 32,
+           2 ** 31 + 1, 2 ** 31 + 3, 2 ** 32 - 1, 2 ** 32 - 3, 0xC0000001, 0xC0000003,
            2 ** 32 + 1, 4294967297 * 3, 2 ** 53, 2 ** 53 + 1, 2 ** 62, 2 ** 63 - 1, 2 ** 63, -(2 ** 63), 2 ** 64, 10 ** 18,
            3037000499, 3037000500, 10 ** 30, 13043817825332782212, 13043817825332782213, 2 ** 126, 2 ** 127 - 1,
            -(2 ** 127) + 1, -(2 ** 127)]
